@@ -476,13 +476,21 @@ def verify_kernel(member, fn, kind, timeout_s=120):
         return dict(checks=0, proved=0, open=[], loops=0, seconds=round(time.time() - t0, 2), unsupported=str(e))
     proved = 0
     open_ = []
+    refuted = []
     for name, hyps, goal in ctx.checks:
-        if valid(hyps, goal):
+        s = Solver()
+        s.set(timeout=8000)
+        s.add(*hyps)
+        s.add(Not(goal))
+        r = s.check()
+        if r == unsat:
             proved += 1
         else:
             open_.append(name)
+            if r == sat:
+                refuted.append(name)  # a counter-model under the inferred invariants (may still be spurious)
         if time.time() - t0 > timeout_s:
             open_.append("(time budget exhausted)")
             break
-    return dict(checks=len(ctx.checks), proved=proved, open=sorted(set(open_)), loops=len(ctx.invariants), seconds=round(time.time() - t0, 2),
-                unsupported=None, queries=Stats.queries)
+    return dict(checks=len(ctx.checks), proved=proved, open=sorted(set(open_)), refuted=sorted(set(refuted)), loops=len(ctx.invariants),
+                seconds=round(time.time() - t0, 2), unsupported=None, queries=Stats.queries)
